@@ -832,6 +832,8 @@ def c18_transition(ctx: Ctx) -> List[Violation]:
             if pb.__class__.__name__ != "ChargeQueueing":
                 continue
             ctx.cov["c18:grant_while_another_keeps_waiting"] += 1
+            if int(sb.enqueue_time) // 86400 != int(sa.enqueue_time) // 86400:
+                ctx.cov["c18:queue_spans_midnight"] += 1
             if int(sb.enqueue_time) < int(sa.enqueue_time):
                 out.append(
                     Violation("C18", "overtaken", (sa.charger_id,), f"{a} (queued at {int(sa.enqueue_time)}) was granted the {sa.charger_id} plug at {sa.station_id} while {b}, queued since {int(sb.enqueue_time)}, keeps waiting")
